@@ -345,7 +345,7 @@ pub fn c09(args: &Args) -> Report {
     let thorough = args.thorough();
     let all = scenarios(thorough);
     let tree = Tree::new(&format!("s{}", args.shard));
-    let bound2: Option<usize> = if thorough { None } else { Some(3) };
+    let bound2: Option<usize> = if thorough { None } else { Some(2) };
     let bound3: Option<usize> = if thorough { Some(3) } else { Some(2) };
     let cap: u64 = if thorough { 2_000_000 } else { 20_000 };
     let mut total_sched = 0u64;
@@ -373,12 +373,12 @@ pub fn c09(args: &Args) -> Report {
             },
             |ex| {
                 let run = cur.borrow_mut().take().unwrap();
-                let mut bad = if let Some(d) = &ex.deadlock { vec![("deadlock".to_string(), d.clone())] } else { judge(&run, sc) };
+                let mut bad = if let Some(d) = &ex.deadlock { vec![(if d.starts_with("livelock") { "livelock" } else { "deadlock" }.to_string(), d.clone())] } else { judge(&run, sc) };
                 let key = format!("{}thr:pre{}:{}", sc.progs.len(), ex.preemptions().min(4), if bad.is_empty() { "ok" } else { "VIOLATION" });
                 *outcomes.entry(key).or_insert(0) += 1;
                 let stop = !bad.is_empty();
                 for (c, m) in bad.drain(..) {
-                    viols.push((c, m, ex.choices(), ex.describe()));
+                    viols.push((c, m, ex.choices().into_iter().take(200).collect(), ex.describe().into_iter().take(200).collect()));
                 }
                 stop
             },
